@@ -32,8 +32,9 @@ use std::os::unix::io::AsRawFd;
 use std::time::{Duration, Instant};
 
 use serde_json::{json, Value};
+use sozu_command_lib::config::ListenerBuilder;
 use sozu_command_lib::proto::command::{
-    request::RequestType, Cluster, LoadBalancingAlgorithms, UdpAffinityKey, UdpClusterConfig, UpdateUdpListenerConfig,
+    request::RequestType, Cluster, ListenerType, LoadBalancingAlgorithms, UdpAffinityKey, UdpClusterConfig, UpdateUdpListenerConfig,
 };
 use verif_harness::rig::*;
 use verif_harness::*;
@@ -274,6 +275,7 @@ impl World {
     /// close the monitor's view of flows that are certainly gone; returns (certain live, maybe live)
     fn sweep(&mut self, t: Instant) -> (usize, usize) {
         let (mut live, mut maybe) = (0, 0);
+        let mut gone = vec![];
         for f in self.flows.iter_mut().filter(|f| !f.closed) {
             match status(f, t) {
                 St::Alive => live += 1,
@@ -281,7 +283,24 @@ impl World {
                 St::Gone => {
                     f.closed = true;
                     f.idle_closed = true;
+                    gone.push((f.inc, f.up, f.client));
                 }
+            }
+        }
+        // idle teardown, observed directly: more than LATE ms past its idle deadline the flow's upstream
+        // socket must be closed, i.e. its port free again (unless the kernel gave it to a newer flow)
+        for (inc, up, client) in gone {
+            if self.flows.iter().any(|f| !f.closed && f.up.port() == up.port()) {
+                continue;
+            }
+            match UdpSocket::bind(up) {
+                Ok(_) => self.c.tag("idle-flow-socket-verified-closed"),
+                Err(e) if e.kind() == std::io::ErrorKind::AddrInUse => {
+                    self.c.fail("idle-flow-not-torn-down", format!("flow {inc} of {client}: upstream socket {up} still open more than {LATE} ms after its idle deadline"));
+                    self.c.tainted = true;
+                    self.c.trace_ok = false;
+                }
+                Err(_) => {}
             }
         }
         (live, maybe)
@@ -387,7 +406,16 @@ impl World {
             }
             (Exp::NewOrNothing, None) => {}
             (Exp::Nothing, Some(d)) => {
-                let class = if !valid { "invalid-datagram-forwarded" } else { "cap-exceeded-on-the-wire" };
+                let bidx = d.sock - self.net.nclients;
+                let leaked = self.flows.iter().any(|f| f.idle_closed && f.bidx == bidx && f.up == d.from);
+                let class = if !valid {
+                    "invalid-datagram-forwarded"
+                } else if leaked {
+                    // forwarded on the socket of a flow that should have been reaped long ago
+                    "idle-flow-not-torn-down"
+                } else {
+                    "cap-exceeded-on-the-wire"
+                };
                 self.c.fail(class, format!("{} bytes from {} reached backend {} ({} live flows, cap {})", p.len(), client, d.sock - self.net.nclients, live, self.k.cap));
                 self.c.tainted = true;
             }
@@ -728,6 +756,36 @@ fn is_subsequence(a: &[Vec<u8>], b: &[Vec<u8>]) -> bool {
     a.iter().all(|x| it.any(|y| y == x))
 }
 
+
+static NEXT_PORT: std::sync::atomic::AtomicU64 = std::sync::atomic::AtomicU64::new(0);
+
+/// The rig's `reserve_udp` autobinds with SO_REUSEPORT and releases the reservation once sozu holds the port;
+/// Linux may then hand the same port to the next SO_REUSEPORT autobind, and two workers would share one
+/// listener port (the kernel spreads the datagrams over both). So pick explicit ports below the ephemeral
+/// range, per process, and make sure nobody holds them.
+fn add_listener(w: &mut Worker, k: &Knobs) -> RigResult<SocketAddr> {
+    for _ in 0..200 {
+        let n = NEXT_PORT.fetch_add(1, std::sync::atomic::Ordering::Relaxed);
+        let port = 10000 + ((std::process::id() as u64 * 7919 + n * 13) % 20000) as u16;
+        let addr = SocketAddr::new(IpAddr::V4(Ipv4Addr::new(127, 0, 0, 1)), port);
+        match UdpSocket::bind(addr) {
+            Ok(s) => drop(s),
+            Err(_) => continue,
+        }
+        let mut cfg = ListenerBuilder::new_udp(addr.into())
+            .to_udp(Some(&w.config))
+            .map_err(|e| RigError::Setup(format!("to_udp: {e}")))?;
+        cfg.front_timeout = k.fto as u32;
+        cfg.back_timeout = k.bto as u32;
+        cfg.max_rx_datagram_size = k.max_rx as u32;
+        cfg.max_flows = k.cap as u32;
+        w.request_ok(RequestType::AddUdpListener(cfg))?;
+        w.activate(addr, ListenerType::Udp)?;
+        return Ok(addr);
+    }
+    Err(RigError::Setup("no free listener port".into()))
+}
+
 // ------------------------------------------------------------- one case ---
 
 fn run_case(seed: u64, case: u64, thorough: bool, driver: &str) -> (Case, Value) {
@@ -781,16 +839,7 @@ fn run_case(seed: u64, case: u64, thorough: bool, driver: &str) -> (Case, Value)
             return (c, desc);
         }
     };
-    let kk = k.clone();
-    let front = match w.add_udp_listener_with(
-        |_| {},
-        |cfg| {
-            cfg.front_timeout = kk.fto as u32;
-            cfg.back_timeout = kk.bto as u32;
-            cfg.max_rx_datagram_size = kk.max_rx as u32;
-            cfg.max_flows = kk.cap as u32;
-        },
-    ) {
+    let front = match add_listener(&mut w, &k) {
         Ok(a) => a,
         Err(e) => {
             c.fail("harness-setup", format!("listener: {e:?}"));
@@ -1022,13 +1071,8 @@ fn probe_idle(n: u64) {
     let (mut same, mut fresh) = (0, 0);
     for i in 0..n {
         let mut w = Worker::start(WorkerOpts { log_level: "off".into(), ..Default::default() }).unwrap();
-        let front = w
-            .add_udp_listener_with(|_| {}, |cfg| {
-                cfg.front_timeout = 1;
-                cfg.back_timeout = 1;
-                cfg.max_flows = 8;
-            })
-            .unwrap();
+        let pk = Knobs { wp: false, pp: false, every: false, responses: 0, requests: 0, fto: 1, bto: 1, cap: 8, max_rx: 1500 };
+        let front = add_listener(&mut w, &pk).unwrap();
         let c = bind(Ipv4Addr::new(127, 0, 0, 2)).unwrap();
         let b = bind(Ipv4Addr::new(127, 0, 0, 1)).unwrap();
         w.add_cluster(cluster(CLUSTER)).unwrap();
@@ -1061,7 +1105,7 @@ fn main() {
     }
     let t0 = Instant::now();
     let thorough = args.thorough();
-    let ncases = args.cases.unwrap_or(if thorough { 700 } else { 96 });
+    let ncases = args.cases.unwrap_or(if thorough { 480 } else { 96 });
     let mut only: Option<u64> = args.extra.get("only").and_then(|x| x.parse().ok());
     if let Some(path) = &args.replay {
         // a replay file names the case; the case is a pure function of (seed, case) up to wire timing
